@@ -1,6 +1,165 @@
 import Infretis.Model.Proto
-open Infretis.Proto
+import Infretis.Model.AddToPath
+import Infretis.Model.EngineLoops
+open Infretis Infretis.Proto Infretis.Engine Infretis.EngineLoops
 
-def handle (_toks : List String) : String := "bad-op"
+/-
+Requests (all numbers are integers; order values/interfaces are pre-scaled by the harness):
+
+  add  <maxlen|-> <left> <right> <x> <n> ops…                       → addToPath
+  feed <maxlen|-> <left> <right> <n> ops… <m> stream…               → feed
+  ext  <lammps-asis|lammps-rep|cp2k:<box0>> <left> <right> <maxlen> <rev> <code> <fuel>
+       <n> (cid bid vel)…   <m> (file vis vis2 alive)…   <q> (cid bid value)…
+  inproc <ase 0|1> <left> <right> <maxlen> <rev> <sub> <n> (cid bid vel)… <q> (cid bid value)…
+  gmx  <left> <right> <maxlen> <rev> <n> (cid bid vel)… <q> (cid bid value)…
+-/
+
+def showStatus : Option PStatus → String
+  | none => "init"
+  | some .running => "running"
+  | some .crossedLeft => "left"
+  | some .crossedRight => "right"
+  | some .maxLenNoAdd => "maxlen-noadd"
+  | some .maxLen => "maxlen"
+
+def showErr : Option Err → String
+  | none => "ok"
+  | some .index => "err:index"
+  | some .runtime => "err:runtime"
+  | some .unbound => "err:unbound"
+  | some .fuel => "err:fuel"
+
+def b01 (b : Bool) : String := if b then "1" else "0"
+
+def showEntry (e : Entry) : String := s!"{e.idx},{e.cid},{e.bid},{e.vel},{e.order}"
+
+def showResult (r : Result) : String :=
+  s!"{showErr r.raised} {b01 r.success} {showStatus r.status} {b01 r.killed} {b01 r.dead} {b01 r.multi} {r.ticks} | {showList showEntry r.es}"
+
+/-- take `3·n` tokens as n triples -/
+def takeTriples : List String → Option (List (Int × Int × Int) × List String)
+  | [] => none
+  | n :: rest =>
+    match parseNat? n with
+    | none => none
+    | some k =>
+      if rest.length < 3 * k then none
+      else
+        let rec go : Nat → List String → List (Int × Int × Int) → Option (List (Int × Int × Int))
+          | 0, _, acc => some acc.reverse
+          | j + 1, a :: b :: c :: t, acc =>
+            match parseInt? a, parseInt? b, parseInt? c with
+            | some a, some b, some c => go j t ((a, b, c) :: acc)
+            | _, _, _ => none
+          | _, _, _ => none
+        match go k rest [] with
+        | none => none
+        | some xs => some (xs, rest.drop (3 * k))
+
+def takeQuads : List String → Option (List (Int × Int × Int × Int) × List String)
+  | [] => none
+  | n :: rest =>
+    match parseNat? n with
+    | none => none
+    | some k =>
+      if rest.length < 4 * k then none
+      else
+        let rec go : Nat → List String → List (Int × Int × Int × Int) → Option (List (Int × Int × Int × Int))
+          | 0, _, acc => some acc.reverse
+          | j + 1, a :: b :: c :: d :: t, acc =>
+            match parseInt? a, parseInt? b, parseInt? c, parseInt? d with
+            | some a, some b, some c, some d => go j t ((a, b, c, d) :: acc)
+            | _, _, _, _ => none
+          | _, _, _ => none
+        match go k rest [] with
+        | none => none
+        | some xs => some (xs, rest.drop (4 * k))
+
+def toFrames (xs : List (Int × Int × Int)) : List Frame :=
+  xs.map (fun (a, b, c) => { cid := a.toNat, bid := b.toNat, vel := c })
+
+def tableOrd (tab : List (Int × Int × Int)) : Nat → Nat → Int → Int :=
+  fun cid bid _ =>
+    match tab.find? (fun (a, b, _) => a = (cid : Int) ∧ b = (bid : Int)) with
+    | some (_, _, v) => v
+    | none => 0
+
+def toSched (ws : List (Int × Int × Int × Int)) : Sched :=
+  let arr := ws.map (fun (f, v, v2, a) => ({ file := f ≠ 0, vis := v.toNat, vis2 := v2.toNat, alive := a ≠ 0 } : World))
+  fun t =>
+    match arr[t]? with
+    | some w => w
+    | none => match arr.getLast? with
+      | some w => w
+      | none => { file := false, vis := 0, vis2 := 0, alive := false }
+
+def parseKind (s : String) : Option Kind :=
+  if s = "lammps-asis" then some (.lammps .asIs)
+  else if s = "lammps-rep" then some (.lammps .repaired)
+  else match s.splitOn ":" with
+    | ["cp2k", b] => (parseNat? b).map Kind.cp2k
+    | _ => none
+
+def parseMaxlen (s : String) : Option (Option Nat) :=
+  if s = "-" then some none else (parseNat? s).map some
+
+def showAdd (r : AddResult) : String :=
+  s!"{showStatus (some r.status)} {b01 r.success} {b01 r.stop} {b01 r.added}"
+
+def handle (toks : List String) : String :=
+  match toks with
+  | "add" :: ml :: l :: r :: x :: rest =>
+    match parseMaxlen ml, parseInt? l, parseInt? r, parseInt? x, takeList parseInt? rest with
+    | some ml, some l, some r, some x, some (ops, []) =>
+      match addToPath ops ml x l r with
+      | none => "err:index"
+      | some (ops', res) => s!"{showAdd res} | {showList toString ops'}"
+    | _, _, _, _, _ => "bad-op"
+  | "feed" :: ml :: l :: r :: rest =>
+    match parseMaxlen ml, parseInt? l, parseInt? r, takeList parseInt? rest with
+    | some ml, some l, some r, some (ops, rest) =>
+      match takeList parseInt? rest with
+      | some (stream, []) =>
+        match feed l r ml ops stream 0 with
+        | none => "err:index"
+        | some (ops', succ, k) => s!"{b01 succ} {k} | {showList toString ops'}"
+      | _ => "bad-op"
+    | _, _, _, _ => "bad-op"
+  | "ext" :: kind :: l :: r :: ml :: rev :: code :: fuel :: rest =>
+    match parseKind kind, parseInt? l, parseInt? r, parseNat? ml, parseInt? code, parseNat? fuel, takeTriples rest with
+    | some k, some l, some r, some ml, some code, some fuel, some (fr, rest) =>
+      match takeQuads rest with
+      | some (ws, rest) =>
+        match takeTriples rest with
+        | some (tab, []) =>
+          let c : Cfg := { ord := tableOrd tab, left := l, right := r, maxlen := ml, rev := rev = "1" }
+          showResult (extRun k c (toSched ws) code (toFrames fr) fuel)
+        | _ => "bad-op"
+      | none => "bad-op"
+    | _, _, _, _, _, _, _ => "bad-op"
+  | "inproc" :: ase :: l :: r :: ml :: rev :: sub :: rest =>
+    match parseInt? l, parseInt? r, parseNat? ml, parseNat? sub, takeTriples rest with
+    | some l, some r, some ml, some sub, some (fr, rest) =>
+      match takeTriples rest with
+      | some (tab, []) =>
+        let c : Cfg := { ord := tableOrd tab, left := l, right := r, maxlen := ml, rev := rev = "1" }
+        let frames := toFrames fr
+        let micro : Nat → Frame := fun i =>
+          match frames[i]? with
+          | some f => f
+          | none => { cid := 0, bid := 0, vel := 0 }
+        showResult (inproc c sub micro (ase = "1"))
+      | _ => "bad-op"
+    | _, _, _, _, _ => "bad-op"
+  | "gmx" :: l :: r :: ml :: rev :: rest =>
+    match parseInt? l, parseInt? r, parseNat? ml, takeTriples rest with
+    | some l, some r, some ml, some (fr, rest) =>
+      match takeTriples rest with
+      | some (tab, []) =>
+        let c : Cfg := { ord := tableOrd tab, left := l, right := r, maxlen := ml, rev := rev = "1" }
+        showResult (gmxRun c (toFrames fr))
+      | _ => "bad-op"
+    | _, _, _, _ => "bad-op"
+  | _ => "bad-op"
 
 def main : IO Unit := mainWith handle
